@@ -765,6 +765,7 @@ func TestC11(t *testing.T) {
 	}
 	nc := r.N(96, 2400)
 	parallel(r, nc, 4, concBase, func(idx int) { concurrentCase(r, idx) })
+	parallel(r, r.N(64, 1200), 4, gateBase, func(idx int) { gateCase(r, idx) })
 	t2 := time.Now()
 	nws := r.N(4000, 100000)
 	websocketPhase(r, 8, max(1, nws/8))
